@@ -412,6 +412,11 @@ def replay_file(path):
         r = C19_drop_replay.replay(rp['decoder'], rp.get('runtime'))
         print(r['detail'])
         return 1 if r['replayed'] else 0
+    if rp.get('which') == 'reader_actor':
+        import C19_stream_replay
+        r = C19_stream_replay.replay_reader()
+        print(r['detail'])
+        return 1 if r['replayed'] else 0
     if rp.get('which') == 'stream':
         import C19_stream_replay
         r = C19_stream_replay.replay(rp['want'], tuple(rp['reads']))
